@@ -59,6 +59,32 @@ def one(entry):
         shutil.rmtree(d, ignore_errors=True)
 
 
+ALL = ["C01", "C02", "C03", "C04", "C05", "C08", "C09", "C10", "C11", "C12", "C13", "C14", "C15", "C16", "C17", "C18", "C19", "C20"]
+
+
+def global_variant(kind):
+    """whole-tree behaviour-preserving rewrites: 'unparse' (formatting / comments / line numbers), 'rename' (+ every local variable renamed)"""
+    r = subprocess.run([os.path.join(VERIF, "tools", "variant_unparse.py")] + (["rename"] if kind == "rename" else []), capture_output=True, text=True)
+    d = r.stdout.strip().splitlines()[-1]
+    try:
+        res = []
+        ok = True
+
+        def chk(pid):
+            env = dict(os.environ, VERIF_REPO=d, VERIF_NO_EVIDENCE="1")
+            rr = subprocess.run([os.path.join(VERIF, "check"), pid], env=env, capture_output=True, text=True)
+            viol = re.findall(r"^\s+violated (\S+)", rr.stdout, re.M)
+            inc = re.findall(r"^ANALYSIS-ERROR property=\S+ (\S+)", rr.stdout, re.M)
+            return pid, rr.returncode, viol[:4], inc[:3]
+        with cf.ThreadPoolExecutor(8) as ex:
+            for t in ex.map(chk, ALL):
+                res.append(t)
+                ok = ok and t[1] == 0
+        return f"global_{kind}", "OK" if ok else "FAIL", SILENT, res
+    finally:
+        shutil.rmtree(d, ignore_errors=True)
+
+
 def main():
     args = sys.argv[1:]
     jobs = 16
@@ -79,6 +105,18 @@ def main():
                 bad += 1
                 print(f"FAIL {name} [{info}]")
                 for p, rc, viol, inc in res:
+                    print(f"       {p}: exit={rc} violated={viol} inconclusive={inc}")
+    for kind in ("unparse", "rename"):
+        if args and not any(a in "global_" + kind for a in args):
+            continue
+        name, status, info, res = global_variant(kind)
+        if status == "OK":
+            print(f"ok   {name} [{info}] all {len(res)} checks exit 0")
+        else:
+            bad += 1
+            print(f"FAIL {name} [{info}]")
+            for p, rc, viol, inc in res:
+                if rc != 0:
                     print(f"       {p}: exit={rc} violated={viol} inconclusive={inc}")
     print(f"selftest: {len(entries)} entries, {bad} failed, {skipped} skipped")
     return 1 if bad else 0
